@@ -327,6 +327,63 @@ func genAudioSample(r *hx.Rng, big int) []byte {
 	return r.Bytes(sz, nil)
 }
 
+// withEmptySamples: ZERO-SIZE samples are valid ISOBMFF (sample_size 0: gap fillers, empty audio frames, empty text
+// samples). Every clear-fragment generator passes its samples through here: now and then the first, the middle, the
+// last, the first and the last, a random subset or ALL samples of the fragment become empty. An empty sample is a
+// sample like any other: it has its own entry in trun, senc and saiz, consumes an IV (cenc) and must come back empty
+// with all its neighbours intact. Video: the unmodified protection-range functions refuse a sample without NAL units
+// (see refusedSample), so empties are drawn less often there; if an encryptor lets them through, the round trip
+// has to hold for them too.
+func withEmptySamples(r *hx.Rng, codec byte, samples [][]byte) [][]byte {
+	den := 3
+	if codec != 'u' {
+		den = 8
+	}
+	n := len(samples)
+	if n == 0 || r.Intn(den) != 0 {
+		return samples
+	}
+	switch r.Intn(6) {
+	case 0:
+		samples[0] = []byte{}
+	case 1:
+		samples[n/2] = []byte{}
+	case 2:
+		samples[n-1] = []byte{}
+	case 3:
+		samples[0], samples[n-1] = []byte{}, []byte{}
+	case 4:
+		for i := range samples {
+			samples[i] = []byte{}
+		}
+	default:
+		for i := range samples {
+			if r.Bool() {
+				samples[i] = []byte{}
+			}
+		}
+	}
+	return samples
+}
+
+// refusedSample: the clear fragment holds a video sample for which the library's protection-range function
+// (GetAVCProtectRanges / GetHEVCProtectRanges) returns an error, e.g. an empty sample ("No NALUs"): EncryptFragment
+// refuses such a fragment, there is nothing to decrypt and the property does not speak about it.
+func (e *env) refusedSample(codec byte, scheme string, samples [][]byte) bool {
+	if codec == 'u' {
+		return false
+	}
+	for _, s := range samples {
+		if len(s) != 0 {
+			continue // only samples of the widened class: everything else has to be accepted as before
+		}
+		if _, class := e.protectRanges(codec, s, scheme); class == "err" {
+			return true
+		}
+	}
+	return false
+}
+
 func genIV(r *hx.Rng, n int) []byte {
 	iv := r.Bytes(n, nil)
 	switch r.Intn(6) {
